@@ -987,6 +987,75 @@ def restriction_updates(ctx: Ctx, rule: str) -> None:
                "" if same and exact else "node and object restrictions are no longer accumulated alike / by whole lines (a restriction contained in another one's text would be dropped: lazy and eager parsing then differ)")
 
 
+# ---------------------------------------------------------------------- cloning a node that is already a clone / matching by name tails
+def reclone_source(ctx: Ctx, rule: str) -> None:
+    """A test with two independent multi-producer dependencies is cloned twice; the second cloning starts from nodes that are already clones.
+    A clone must then inherit its source's *current* parameters (the branch-specific name, get_state, set_state written by the first cloning),
+    not the pristine recipe; and a node that has become a clone source is a template only."""
+    fn = ctx.repo.func(PCB)
+    ctx.touch(PCB)
+    src = ast.unparse(fn.node)
+    from_recipe = "clone_source.recipe.get_copy()" in src
+    inherits = any(isinstance(s_, ast.Assign) and "clone_source.params" in ast.unparse(s_.value) and ast.unparse(s_.targets[0]).startswith("child.") for s_ in ast.walk(fn.node))
+    ok = not from_recipe or inherits
+    ctx.record(rule, "PROV", PCB, "a clone inherits the current parameters of its clone source (which may itself be a clone with branch-specific name and states), not only the source's recipe",
+               ok, {"from_recipe": from_recipe, "inherits_params": inherits},
+               "" if ok else "clones are rebuilt from the pristine recipe of their source: when the source is itself a clone (a test with two independent multi-producer dependencies) its "
+               "branch-specific name / get_state / set_state are lost - clones with get_state None, missing branches, or only clone sources and nothing runnable")
+
+
+def bridged_form_anchored(ctx: Ctx, rule: str) -> None:
+    """Equivalent nodes are found by matching a regular expression against full node names: it must cover the whole name, or a clone named
+    after a producer's state (`user.prepA.two.vms...`) passes for that producer (`all.prepA.two.vms...`)."""
+    fref = f"{N_}.bridged_form"
+    fn = ctx.repo.func(fref)
+    ctx.touch(fref)
+    rets = [r for r in ast.walk(fn.node) if isinstance(r, ast.Return) and r.value is not None]
+    comp = [r for r in rets if "setless_form.replace" in ast.unparse(r.value) or "replace(suffix" in ast.unparse(r.value)]
+    ok = False
+    found = None
+    if len(comp) == 1:
+        found = ast.unparse(comp[0].value)
+        parts = norm.concat_parts(comp[0].value)
+        ok = bool(parts) and parts[0].startswith(("'^", '"^')) and parts[-1].rstrip("'\"").endswith("$")
+    ctx.record(rule, "CONST", fref, "the worker-invariant form of a composite node is a regular expression anchored at both ends of the node name", ok, {"found": found},
+               "" if ok else f"bridged_form matches a name TAIL ({found}): a clone named after a producer's state is taken for an equivalent of that producer "
+               "(ValueError 'Cannot bridge ... with non-equivalent', or a dependant adopting another test's clones as parents); previous results are attributed with the same expression")
+
+
+# ---------------------------------------------------------------------- object roots name the object they create
+def object_root_value(ctx: Ctx, rule: str) -> None:
+    """The one reader of `object_root` (traverse_terminal_node) takes it apart as <image>_<vm>-<variant>; every writer must therefore store the
+    id of an image object: the dependant's dep_id, or - for an object creation test that was selected directly (only nonleaves / only all) and
+    has no dependant - the node's own image, never the net."""
+    fref = f"{G}.parse_nodes_from_flat_node_and_object"
+    fn = ctx.repo.func(fref)
+    ctx.touch(fref)
+    netp = fn.params()[2]
+    stores = [s_ for s_ in ast.walk(fn.node) if isinstance(s_, ast.Assign) and isinstance(s_.targets[0], ast.Subscript) and isinstance(s_.targets[0].slice, ast.Constant)
+              and s_.targets[0].slice.value == "object_root"]
+    why = ""
+    if len(stores) != 1:
+        why = f"{len(stores)} writers of object_root in {fref}"
+    else:
+        v = stores[0].value
+        if not (isinstance(v, ast.Call) and call_name(v) == "get" and v.args and isinstance(v.args[0], ast.Constant) and v.args[0].value == "dep_id" and len(v.args) == 2):
+            why = f"object_root is no longer the dependant's dep_id with a fallback: {ast.unparse(v)[:100]}"
+        else:
+            d = v.args[1]
+            names = {n_.id for n_ in ast.walk(d) if isinstance(n_, ast.Name)}
+            if ast.unparse(d).endswith(".id") and "net" in ast.unparse(d) and "image" not in ast.unparse(d):
+                why = (f"an object creation test without a dependant (selected directly: only nonleaves, only all) gets object_root = {ast.unparse(d)}, the net: traverse_terminal_node "
+                       "unpacks it as <image>_<vm> and raises ValueError - the traversal dies and the selected test never runs")
+            elif not (("images" in ast.unparse(fn.node)) and names - {netp}):
+                why = f"the fallback of object_root is not an image object of the node: {ast.unparse(d)[:100]}"
+    rd = ctx.repo.func(f"{G}.traverse_terminal_node")
+    ctx.touch(rd.ref)
+    unpack = any(isinstance(s_, ast.Assign) and isinstance(s_.targets[0], ast.Tuple) and len(s_.targets[0].elts) == 2 and "split('_')" in ast.unparse(s_.value) for s_ in ast.walk(rd.node))
+    ctx.record(rule, "PROV", fref, "object_root = the dependant's dep_id, else the id of the node's own image object (what the reader unpacks as <image>_<vm>-<variant>)", not why and unpack,
+               {"reader_unpacks_image_vm": unpack}, why or ("" if unpack else "the reader of object_root changed"))
+
+
 # ---------------------------------------------------------------------- parsing helpers leave their shared inputs alone
 SHARED_FIELDS = ("restrs", "params", "_params_cache", "objects", "prefix", "recipe")
 SHARED_MUTATORS = ("update_restrs", "regenerate_params", "set_objects_from_net", "clone_as_source")
@@ -1189,7 +1258,8 @@ def flat_expansion(ctx: Ctx, rule: str) -> None:
         app = [c for t_ in ast.walk(fi) if isinstance(t_, ast.Try) for s_ in t_.orelse for c in calls_in(s_) if call_name(c) == "append" and ast.unparse(c.func.value) == "test_nodes"]
         ok3 = (len(app) == 1 and ast.unparse(app[0].args[0]) == "new_node" and di.get("test_nets") == ["get_nets + parse_nets"]
                and di.get("new_node") == [f"self.parse_node_from_object({net}, {nodep}.params['name'], prefix=prefix + ('b' + str({j}) if {j} > 0 else ''), params=params)"]
-               and di.get("new_node.params['object_root']") == [f"{nodep}.params.get('dep_id', {net}.id)"]
+               # the fingerprint is the dependant's dep_id with some fallback (which fallback is right: rule object_root_value)
+               and len(di.get("new_node.params['object_root']", [])) == 1 and str(di["new_node.params['object_root']"][0]).startswith(f"{nodep}.params.get('dep_id', ")
                and isinstance(fi.body[-1], ast.Return) and ast.unparse(fi.body[-1].value) == "test_nodes")
         defs = di
     ctx.record(rule + "n", "COUNT", PNF, "one node per reused-or-new net variant (prefix + 'b<j>' from the second on), every parsed node is returned; object roots carry the dependent object's id as fingerprint",
